@@ -112,7 +112,7 @@ class C12(runner.Check):
   chunk = 20
   probes = ['probe.update-with-completed', 'probe.restored-from-metadata', 'probe.state-lost-new-lineage',
             'probe.deletion', 'probe.external-completed-trial', 'probe.infeasible-completion',
-            'restart.clean', 'probe.mode.service-serializable', 'probe.mode.service-rebuild',
+            'restart.clean', 'probe.stopping-trial-present', 'probe.mode.service-serializable', 'probe.mode.service-rebuild',
             'probe.mode.inram-alive', 'probe.mode.inram-rebuilt', 'probe.id-reused-after-delete']
 
   def gen(self, rng, idx, tier):
@@ -123,7 +123,7 @@ class C12(runner.Check):
     ops = [['CreateStudy', {'o': 0, 'd': 0, 'state': 'ACTIVE'}]]
     n = rng.randrange(5, 25 if tier == 'quick' else 45)
     kinds = (['SuggestTrials'] * 7 + ['CompleteTrial'] * 7 + ['CreateTrial'] * 2 + ['DeleteTrial'] * 2
-             + ['Reopen', 'CorruptState', 'M:reuse'])
+             + ['Reopen', 'CorruptState', 'M:reuse', 'StopTrial', 'StopTrial'])
     if rng.random() < 0.5:
       kinds = [k for k in kinds if k not in ('DeleteTrial', 'M:reuse')]  # swarm: deletion-free runs
     while len(ops) < n:
@@ -131,7 +131,7 @@ class C12(runner.Check):
       if k == 'SuggestTrials':
         ops.append([k, {'study': ss, 'n': rng.choice([1, 1, 2, 3, 4]), 'worker': rng.randrange(3)}])
       elif k == 'CompleteTrial':
-        ops.append([k, {'study': ss, 'trial': {'pref': 'active', 'i': rng.randrange(8)},
+        ops.append([k, {'study': ss, 'trial': {'pref': rng.choice(['active', 'active', 'mutable', 'stopping']), 'i': rng.randrange(8)},
                         'ckind': rng.choice(['final', 'final', 'final', 'infeasible']), 'v': rng.randrange(5)}])
       elif k == 'CreateTrial':
         ops.append([k, {'study': ss, 'x': rng.randrange(40), 'tkind': rng.choice(['succeeded', 'succeeded', 'plain'])}])
@@ -146,6 +146,8 @@ class C12(runner.Check):
                 ['DeleteTrial', {'study': ss, 'trial': {'pref': 'max', 'i': 0}}],
                 ['SuggestTrials', {'study': ss, 'n': 1, 'worker': 2}],
                 ['CompleteTrial', {'study': ss, 'trial': {'pref': 'max', 'i': 0}, 'ckind': 'final', 'v': 2}]]
+      elif k == 'StopTrial':
+        ops.append([k, {'study': ss, 'trial': {'pref': 'active', 'i': rng.randrange(8)}}])
       elif k == 'CorruptState':
         ops.append([k, {'what': rng.choice(['designer', 'cache'])}])
       else:
@@ -203,6 +205,8 @@ class C12(runner.Check):
           res.bump('probe.update-with-completed')
         if not ev['fresh']:
           res.bump('probe.restored-from-metadata')
+        if 'STOPPING' in status.values():
+          res.bump('probe.stopping-trial-present')
 
     hook = Hook()
     P.RecordingDesigner.LOG = hook
@@ -307,7 +311,7 @@ class C12(runner.Check):
     try:
       for step, op in enumerate(plan['ops']):
         kind = op[0]
-        if kind in ('CreateStudy', 'DeleteTrial'):
+        if kind in ('CreateStudy', 'DeleteTrial', 'StopTrial'):
           continue
         if kind == 'Reopen':
           # "server restart" for the in-RAM host = the policy object is rebuilt;
